@@ -316,7 +316,9 @@ PROPS["C20"] = {
              "accessor for flush/reconn/connbuf/iobuf, (*GrafanaNet).Cfg). Oracle: both renderings give the same entry, equal to the model whose "
              "defaults are transcribed from the tables in docs/config.md. Sub-checks: blacklist_rewriter, aggregation (all ten functions; "
              "percentiles TOML-only; cache default not documented so only checked when set), carbon_route (3 types, 1-3 destinations, 10 numeric + "
-             "2 boolean + 6 filter options per destination), grafananet_route. interpolation: config texts assembled from the documented "
+             "2 boolean + 6 filter options per destination), grafananet_route, route_sections (2-4 [[route]] tables of mixed types in ONE file: "
+             "each must come out as its own addRoute command says, in file order -- what one section sets or omits must not leak into "
+             "another; non-trivial there: a grafanaNet section omits a boolean that an earlier section sets). interpolation: config texts assembled from the documented "
              "variables (${VAR}, $VAR) and every other '$' shape ($1, ${1}, $10, ${name}, $$, $ before punctuation / at end, ${}, unterminated ${, "
              "near-miss names) run through the real readConfigFile (package-main driver) must come back with only the documented variables "
              "substituted. Non-trivial: >=3 options set and >=1 omitted; interpolation: text with both a documented variable and another '$' "
@@ -325,9 +327,9 @@ PROPS["C20"] = {
     "level_note": "kafkaMdm / pubsub / cloudWatch routes cannot be constructed offline. Values avoid spaces and tokens the command tokenizer treats specially (true/false/bare numbers for string options). $VAR without braces is undocumented: substituted or left alone are both accepted.",
     "technique": "property-based testing (rapid): differential TOML-vs-command oracle + documentation-derived model; identity oracle for interpolation",
     "assumptions": ["docs/config.md tables are the documented defaults", "the package-main test driver calls the real readConfigFile"],
-    "quick": [R("TestPropBlacklistAndRewriter", 1500), R("TestPropAggregation", 1200), R("TestPropCarbonRoute", 1200), R("TestPropGrafanaNetRoute", 150), R("TestPropInterpolation", 5000)],
+    "quick": [R("TestPropBlacklistAndRewriter", 1500), R("TestPropAggregation", 1200), R("TestPropCarbonRoute", 1200), R("TestPropGrafanaNetRoute", 150), R("TestPropRouteSections", 150), R("TestPropInterpolation", 5000)],
     "thorough": [R("TestPropBlacklistAndRewriter", 20000, shards=2, timeout=2400), R("TestPropAggregation", 10000, shards=3, timeout=2400),
-                 R("TestPropCarbonRoute", 10000, shards=6, timeout=2400), R("TestPropGrafanaNetRoute", 600, shards=3, timeout=2400),
+                 R("TestPropCarbonRoute", 10000, shards=6, timeout=2400), R("TestPropGrafanaNetRoute", 600, shards=3, timeout=2400), R("TestPropRouteSections", 1500, shards=3, timeout=2400),
                  R("TestPropInterpolation", 200000, shards=2, timeout=2400)],
 }
 
@@ -375,8 +377,9 @@ PROPS["C06"] = {
 PROPS["C07"] = {
     "pkg": "c07", "level": "exploration",
     "rule": ("spool_outage: rapid draws a fault schedule of 2-6 phases (endpoint up|down alternating, incl. down before the first connect and repeated "
-             "outages, 0-400 uniquely numbered lines per phase, pauses 0-120 ms, connection reset or orderly close), always ending up; tuning: "
-             "reconn 20-100 ms, flush 5-50 ms, connbuf, iobuf, spoolbuf 10..10000, maxbytesperfile 500..1M (segment rollovers), syncevery, "
+             "outages, 0-400 uniquely numbered lines per phase, pauses 0-120 ms, connection reset or orderly close), always ending up; a returning endpoint is sluggish in 1 of 4 cases (accepts, 4 KB receive "
+             "window, reads nothing until its phase's lines have been handed: the backlog is drained into a busy connection); lines up to ~60 "
+             "or ~320 bytes; tuning: reconn 20-100 ms, flush 5-50 ms, connbuf 1..30000, iobuf, spoolbuf 10..10000, maxbytesperfile 500..1M (segment rollovers), syncevery, "
              "spoolsleep / unspoolsleep, pacing (a pause every 1/3/8 lines). A real destination with spooling on talks to loopback endpoints "
              "re-created on the same port. Completion: poll until |distinct received| + slow_conn + slow_spool >= |handed| (60 s deadline, only "
              "ever paid by a failing run), then until the verif-tagged spool backlog accessor reports 0. Oracle: distinct lines never received "
@@ -423,7 +426,11 @@ PROPS["C14"] = {
              "blacklist), metric traffic matching the configured filters on the plain input (valid, invalid, binary junk, 'now'-stamped lines), "
              "then later admin activity (destination deletions down to zero, modDest/modRoute/delRoute, view) and more traffic, then a settle "
              "delay. Oracle: the child answers after every life; if it dies, the lives it handled are replayed one per FRESH child with a longer "
-             "settle to attribute delayed crashes, and the culprit is reported with the panic text. pickle_bytes / plain_bytes (in-process, panics "
+             "settle to attribute delayed crashes, and the culprit is reported with the panic text. filter_values (in-process, thousands of cases "
+             "per second): 1-5 of addBlack / addRewriter / addAgg / addRoute / modRoute / modDest whose filter and pattern values come from a "
+             "valid-regex grammar, from a grammar-free soup of regex metacharacters (optional ^, literal tokens, then {, {1, (?, [^, \\Q, ... -- "
+             "may or may not compile) and plain fragments, followed by dispatches that evaluate the accepted filters; every command and dispatch "
+             "must return (a panic is the crash). pickle_bytes / plain_bytes (in-process, panics "
              "recovered): mutated CPython pickles (byte flips, truncation, hostile opcodes and lengths, random payloads, wrong frame lengths) and "
              "random / structured byte streams through input.NewPickle / input.NewPlain -> Table.Dispatch. Non-trivial: >=3 steps of a life were "
              "accepted (the configuration took effect and then carried traffic); byte-level: non-empty stream. Distinct = hash(steps / bytes)."),
@@ -431,7 +438,7 @@ PROPS["C14"] = {
     "level_note": "kafkaMdm / pubsub / cloudWatch commands are generated only in forms that fail before their constructors need a broker (those call log.Fatalf when the service is unreachable, always the case offline). Buffer SIZES are kept within what a machine can allocate (an absurd size is memory exhaustion on request, not a crash class). A hung worker is restarted, not reported (liveness belongs to C06/C17).",
     "technique": "property-based testing (rapid) with a crash oracle on a child process (grammar + mutation generators); native go fuzzing of the pickle handler in the thorough tier",
     "assumptions": ["a panic in any goroutine terminates the relay exactly as it terminates the child", "og-rek is part of the relay's attack surface"],
-    "quick": [R("TestPropAdminAndTraffic", 90, timeout=900), R("TestPropPickleBytes", 3000), R("TestPropPlainBytes", 3000)],
-    "thorough": [R("TestPropAdminAndTraffic", 500, shards=12, timeout=3000), R("TestPropPickleBytes", 30000, shards=2, timeout=3000), R("TestPropPlainBytes", 100000, shards=2, timeout=3000),
+    "quick": [R("TestPropAdminAndTraffic", 90, timeout=900), R("TestPropFilterValues", 20000), R("TestPropPickleBytes", 3000), R("TestPropPlainBytes", 3000)],
+    "thorough": [R("TestPropAdminAndTraffic", 500, shards=12, timeout=3000), R("TestPropFilterValues", 400000, shards=4, timeout=3000), R("TestPropPickleBytes", 30000, shards=2, timeout=3000), R("TestPropPlainBytes", 100000, shards=2, timeout=3000),
                  F("FuzzPickleHandle", "180s", timeout=1200)],
 }
